@@ -15,7 +15,7 @@ CLAIMED = {
              "segmentation, against the strict RFC 9112 reading (specs/HttpStream.tla); the same families are emitted "
              "by TLC, concretized to bytes (several spellings per line class) and pushed through the real "
              "gunicorn.http.RequestParser; every recorded trace is judged by TLC against specs/HttpTrace.tla."
-             " The same streams are also served through the real handle() of the sync / gthread / async workers; the requests that reach the application (parse offset, body) are judged by the same monitor. Heads without continuation lines are also run under permit_obsolete_folding (what the switch does not relax stays refused).",
+             " The same streams are also served through the real handle() of the sync / gthread / async workers; the requests that reach the application (parse offset, body) are judged by the same monitor. Heads without continuation lines are also run under permit_obsolete_folding (what the switch does not relax stays refused). Connection level: specs/KeepAlive.tla (keep-alive loop of the three worker kinds, timer, reaper, stop request) checked by TLC and followed by the real handle() on a socket that scripts the passing of the keep-alive time (clause PhantomRequest).",
         design_ref="DESIGN.md 4 C01, 9",
         technique="TLA+ model checking (TLC) of a parser model vs. a strict-reading oracle + TLC trace validation of real parser runs"),
     "C06": dict(
@@ -207,7 +207,7 @@ CLAIMED = {
              "a load of short, long and streaming requests during 1-3 HUPs that change worker count and a marker variable "
              "(refused / cut / complete per request, old workers gone, new count, new marker); the real SyncWorker.run() loop "
              "in-process with TERM delivered at every system-call boundary (every connection taken off the listen queue must be "
-             "answered); judged by TLC against specs/ReloadTrace.tla. The real sync loop follows specs/SyncLoop.tla (AtMostOneAcceptAfterStop). Real reloads include a configuration file named relative to the start directory; line-level injection follows a HUP on the simulated kernel (clause MasterExitedUnasked).",
+             "answered); judged by TLC against specs/ReloadTrace.tla. The real sync loop follows specs/SyncLoop.tla (AtMostOneAcceptAfterStop). Real reloads include a configuration file named relative to the start directory; line-level injection follows a HUP on the simulated kernel (clause MasterExitedUnasked). A client re-using one kept-alive connection across the reloads and HUP bursts faster than a worker boots; the connection-level loop of the three worker kinds follows specs/KeepAlive.tla (ServedAfterStop).",
         design_ref="DESIGN.md 4 C10, 9",
         technique="TLA+ model checking of reload + TLC trace validation of the real Arbiter on a simulated kernel, of real-process reloads under load and of the real sync loop with TERM injected at every system call"),
     "C11": dict(
